@@ -77,6 +77,66 @@ def seq_compare(obs, pred):
     return ('inconclusive', 'BAD arithmetic') if inc else ('ok', '')
 
 
+class FakeSol:
+    """Stands in for the solver result: evaluates any expression at a chosen decision vector."""
+    def __init__(self, o, xv):
+        self.o = o; self.xv = xv
+    def value(self, e, *a):
+        import casadi as ca
+        f = ca.Function('v', [self.o.vx, self.o.vp], [ca.MX(e)])
+        r = f(self.xv, self.o.pvec)
+        return np.array(r.full()) if hasattr(r, 'full') else np.array(r)
+
+
+def mat_compare(arr, pred, nt, rows, cols, what):
+    """arr: numpy array in the documented layout [i, r, c] with singleton dims removed."""
+    want_shape = ((nt,) if nt is not None else ()) + tuple(d for d in (rows, cols) if d != 1)
+    arr = np.array(arr)
+    if tuple(arr.shape) != want_shape:
+        if not (want_shape == () and arr.size == 1):
+            return 'mismatch', '%s shape %s, documented %s' % (what, tuple(arr.shape), want_shape)
+    a = arr.reshape((nt if nt is not None else 1, rows, cols))
+    inc = False
+    for i in range(a.shape[0]):
+        for r in range(rows):
+            for c in range(cols):
+                p = pred[i][r][c]
+                if isbad(p): inc = True; continue
+                if not close(float(a[i, r, c]), p):
+                    return 'mismatch', '%s entry [%d,%d,%d] obs=%r pred=%s' % (what, i, r, c, float(a[i, r, c]), Fr(p[0], p[1]))
+    return ('inconclusive', 'BAD') if inc else ('ok', '')
+
+
+def matrix_read(b, o, xv, rd, pr, tag):
+    import casadi as ca
+    from rockit.solution import OcpSolution
+    out = []
+    rows = len(rd['es']); cols = len(rd['es'][0])
+    E = ca.vertcat(*[ca.horzcat(*[mx(b, e) for e in row]) for row in rd['es']])
+    sol = OcpSolution(FakeSol(o, xv), b.ocp)
+    if rd['kind'] == 'mvalue':
+        sym = np.array(value_fn(o, E)(xv, o.pvec)).reshape(rows, cols)
+        out.append((tag + ':value', ) + mat_compare(sym if (rows, cols) != (1, 1) else sym.reshape(()), pr['v'], None, rows, cols, 'ocp.value'))
+        num = quiet(sol.value, E)
+        out.append((tag.replace('C07.b', 'C07.c') + ':sol.value', ) + mat_compare(np.array(num).squeeze() if (rows == 1 or cols == 1) else np.array(num), pr['v'], None, rows, cols, 'sol.value'))
+        return out
+    grid = 'integrator_roots' if rd['grid'] == 'roots' else rd['grid']
+    nt = len(pr['t'])
+    t, v = sample_fn(o, E, grid)(xv, o.pvec)
+    t = np.array(t).reshape(-1); v = np.array(v)
+    out.append((tag + ':t:' + rd['grid'],) + seq_compare(list(t), pr['t']))
+    # symbolic sample: horizontal concatenation of the expression's values, one block per time point
+    if v.shape != (rows, cols * nt):
+        out.append((tag + ':sym:' + rd['grid'], 'mismatch', 'ocp.sample shape %s for %dx%d at %d points' % (v.shape, rows, cols, nt)))
+    else:
+        a = np.stack([v[:, i * cols:(i + 1) * cols] for i in range(nt)])
+        out.append((tag + ':sym:' + rd['grid'],) + mat_compare(a.reshape((nt,) + tuple(d for d in (rows, cols) if d != 1)), pr['v'], nt, rows, cols, 'ocp.sample'))
+    ts, num = quiet(sol.sample, E, grid=grid)
+    out.append((tag.replace('C07.a', 'C07.c') + ':sol:' + rd['grid'],) + mat_compare(num, pr['v'], nt, rows, cols, 'sol.sample'))
+    out.append((tag.replace('C07.a', 'C07.c') + ':solt:' + rd['grid'],) + seq_compare(list(np.array(ts).reshape(-1)), pr['t']))
+    return out
+
+
 def probe_assign(decl, probe, o):
     """Ingredient assignment from a probe: only quantities that are decision variables."""
     m = decl['method']; N = m['N']
@@ -178,6 +238,8 @@ def replay(rec):
     for ri, (rd, pr) in enumerate(zip(decl['reads'], pred['reads'])):
         tag = '%s:read%d:%s:%s' % (rd.get('tag', 'read'), ri, rd['kind'], rd.get('grid', ''))
         try:
+            if rd['kind'] in ('msample', 'mvalue'):
+                res.extend(matrix_read(b, o, xv, rd, pr, tag)); continue
             if rd['kind'] == 'value':
                 fn = value_fn(o, mx(b, rd['e']))
                 v = np.array(fn(xv, o.pvec)).reshape(-1)
